@@ -17,6 +17,10 @@ Lend(L) == {[progs |-> [t \in T |-> IF t = 1 THEN p \o <<"join">> \o q \o Drops 
              own0 |-> [t \in T |-> 0], borrowers |-> T \ {1}]
                  : p \in SeqsUpTo({"read", "clone"}, 1), q \in SeqsUpTo({"push", "reserve", "read"}, 1), b \in SeqsUpTo(OpsB, L)}
 cQuick2 == Own2(T, 2)
+\* deeper: 2 threads x up to 3 ops over the ops that touch the count or the bytes
+OpsD == {"clone", "read", "push", "rm", "drop"}
+cDeep2 == {[progs |-> [t \in T |-> IF t = 1 THEN p \o Drops ELSE q \o Drops], own0 |-> [t \in T |-> 1], borrowers |-> {}]
+             : p \in SeqsUpTo(OpsD, 3), q \in SeqsUpTo(OpsD, 3)}
 cLend2 == Lend(2)
 cOwn3 == Own3(1)
 cDemo == {[progs |-> [t \in T |-> IF t = 1 THEN <<"drop">> ELSE <<"push", "drop">>], own0 |-> [t \in T |-> 1], borrowers |-> {}]}
